@@ -74,7 +74,7 @@ _BOX_UNMODELLED = ["boxes without a layout term (skeleton-only): the containers 
 PROPS["C01"] = {
     "level": "proof",
     "technique": "Lean 4 proof (generic layout DSL: encode∘decode = id outside computed don't-care positions, fixed point) + model-vs-code correspondence on every box + committed don't-care list",
-    "level_text": "Generic theorems over the layout DSL (lean/Mp4ff/Model/Layout.lean) hold for every layout and every byte string; the 64 hand-modelled box layouts (Model/Boxes.lean) are tied to the Go decoders/encoders by the box.rt correspondence (accept/reject, Size(), re-encoded bytes) on every box of the repository's media and their structured mutations; all registered types and whole files go through the direct oracle with the committed don't-care list. Nesting (Props/C01b.lean on Model/Tree.lean, the transcription of DecodeContainerChildren[SR] / EncodeContainer / the AddChild methods of the 15 plain containers incl. MoovBox.AddChild's trak placement, edts/traf acceptance, the child-size cross check; and the containers with a fixed-syntax prefix: stsd and dref (full box + entry count that must equal the number of children) and the eight visual sample entries avc1 avc3 hvc1 hev1 encv av01 vp08 vp09 (78 bytes incl. the counted compressor name and its padding); a box whose type is not in the decoder registry REGENERATED from mp4/box.go on every run (Generated.decoderKeys) is an UnknownBox and is kept verbatim): an accepted container re-encodes to exactly its input length (container_length), its header field equals the bytes written at every level (header_field), and the re-encoded tree equals the input outside the leaves' don't-care positions shifted to their place (lossless, no moov reordering on the way); fuel sufficiency (fuel_mono, roundTripTree_stable). Tie: op tree.rt on every plain container of the repository's media whose leaves are modelled and on trees composed from model-generated leaves (box.gen, Model/BoxGen.lean: boxes drawn from the layout terms themselves, so every flag / version / count shape the model allows reaches the four Go code paths). The esds box (Props/C01c.lean on Model/Esds.lean, the transcription of mp4/esds.go + mp4/descriptors.go): every accepted payload is re-encoded bit for bit up to the end of the ES descriptor - descriptor order at every level (the SLConfig slot is only taken by the descriptor directly after the DecoderConfig), every size-field length, unknown tags and unknown trailing data - the only normalisation being the committed trailing-dropped one (esds_reencode_exact); decode(encode e) = e on well-formed trees. Tie: ops esds.dec / esds.rt on descriptor trees with optional / unknown descriptors at every position (before / between / after the DecoderConfig and SLConfig descriptors, inside the DecoderConfig around its DecSpecificInfo) in minimal, 4-byte padded and mixed size-field forms, and on random descriptor trees; the same boxes alone, in mp4a and in stsd > mp4a through the direct oracle.",
+    "level_text": "Generic theorems over the layout DSL (lean/Mp4ff/Model/Layout.lean) hold for every layout and every byte string; the 64 hand-modelled box layouts (Model/Boxes.lean) are tied to the Go decoders/encoders by the box.rt correspondence (accept/reject, Size(), re-encoded bytes) on every box of the repository's media and their structured mutations; all registered types and whole files go through the direct oracle with the committed don't-care list. Nesting (Props/C01b.lean on Model/Tree.lean, the transcription of DecodeContainerChildren[SR] / EncodeContainer / the AddChild methods of the 15 plain containers incl. MoovBox.AddChild's trak placement, edts/traf acceptance, the child-size cross check; and the containers with a fixed-syntax prefix: stsd and dref (full box + entry count that must equal the number of children) and the eight visual sample entries avc1 avc3 hvc1 hev1 encv av01 vp08 vp09 (78 bytes incl. the counted compressor name and its padding); a box whose type is not in the decoder registry REGENERATED from mp4/box.go on every run (Generated.decoderKeys) is an UnknownBox and is kept verbatim): an accepted container re-encodes to exactly its input length (container_length), its header field equals the bytes written at every level (header_field), and the re-encoded tree equals the input outside the leaves' don't-care positions shifted to their place (lossless, no moov reordering on the way); the output is a fixed point (fixed_point: decoding it again succeeds and re-encoding gives the same bytes); fuel sufficiency (fuel_mono, roundTripTree_stable). Tie: op tree.rt on every plain container of the repository's media whose leaves are modelled and on trees composed from model-generated leaves (box.gen, Model/BoxGen.lean: boxes drawn from the layout terms themselves, so every flag / version / count shape the model allows reaches the four Go code paths). The esds box (Props/C01c.lean on Model/Esds.lean, the transcription of mp4/esds.go + mp4/descriptors.go): every accepted payload is re-encoded bit for bit up to the end of the ES descriptor - descriptor order at every level (the SLConfig slot is only taken by the descriptor directly after the DecoderConfig), every size-field length, unknown tags and unknown trailing data - the only normalisation being the committed trailing-dropped one (esds_reencode_exact); decode(encode e) = e on well-formed trees. Tie: ops esds.dec / esds.rt on descriptor trees with optional / unknown descriptors at every position (before / between / after the DecoderConfig and SLConfig descriptors, inside the DecoderConfig around its DecSpecificInfo) in minimal, 4-byte padded and mixed size-field forms, and on random descriptor trees; the same boxes alone, in mp4a and in stsd > mp4a through the direct oracle.",
     "level_note": "Trusted: Lean kernel, allowed axioms, hand transcription of layouts validated by correspondence; unmodelled box types are covered by the direct oracle only (listed in the evidence).",
     "extra_props": ["C01b", "C01c"],
     "trusted": ["Model/Layout.lean + Model/Boxes.lean: layout terms hand-transcribed from mp4/<box>.go for 64 box types, validated by the box.rt correspondence", "Model/Tree.lean: hand transcription of mp4/container.go and the plain containers' decoders / AddChild methods, validated by the tree.rt correspondence", "Model/BoxGen.lean (generator; no theorem depends on it: what it emits is filtered through the model's own roundTrip)", "Model/Esds.lean hand transcription of mp4/esds.go, mp4/descriptors.go, validated by the esds.dec / esds.rt correspondence", "spec/C01-dontcare.json (committed list), audited against the model and the code"],
